@@ -116,4 +116,10 @@ var specs = map[string]propSpec{
 		Rule: "rapid constructs (a) two dependency key sets (0-3 label keys, 0-4 attribute keys with string / number / bool values or traversal addresses) and a permutation: NewSchemaKey of the permuted listing must equal the original's, and two sets share a key exactly when they are the same set by the harness's own canonical form; (b) a block type with 0-2 key labels, 0-3 key attributes (some with defaults) and 1-4 dependent bodies registered under distinct key sets listed in permuted order, each with a marker attribute (own description, token modifier, address, reference value) and optionally a docs link, plus one block instance written to select one of them (key attributes in permuted order, literals / traversals / defaults) or none. The dependent body in force is computed by the harness's reference model and cross-checked against the construction; then every feature must see exactly that body: hover and semantic token (with modifier) on the marker, validation (markers of other bodies unexpected; nothing unexpected when the lookup fails), collected target and origin of the marker, no completion of declared markers, and LinksInFile exactly on the labels / written attribute values that formed the key of a body having a link. evaluations = feature comparisons. Non-trivial = a body selected through >= 2 keys or a key set of size >= 2; distinct = SHA-1 of the case JSON.",
 		Assumptions: append([]string{"second-level (two-step) selection is exercised by C07/C12/C13/C15 through the general generator, not by this constructed scenario"}, commonAssumptions...),
 	},
+	"C10": {
+		Test: "TestC10", Quick: 2000, Thorough: 12000, Shards: 16,
+		QuickTimeout: 10 * time.Minute, ThoroughTimeout: 40 * time.Minute,
+		Rule: "rapid generates a schema (all 12 constraint kinds nested to depth 2, static / dependent / extension bodies, self-ref and non-self-ref bodies, OriginForTarget and Targets) and 1-2 files whose values are type-correct, reference-heavy expressions: traversals (attr, index with literal and traversal keys, legacy index, splats, relative traversals after calls) wrapped in operators, templates, directives, heredocs, conditionals, for expressions, index expressions, parentheses, collections and calls of known / unknown functions with too few / too many arguments, plus unknown attributes and blocks. Reference model: for every schema-known attribute of the effective schema, a place admits references when its constraint is any-expression (all traversals HCL's own Variables() finds there), reference (a plain traversal), or a list / set / tuple / map / object / one-of thereof (structural descent); self.* only where the body enables it; literal / keyword / type-declaration places and unknown attributes admit none. Collected LocalOrigins must equal the model as a set of (address, byte range) and be ordered by file and position; one PathOrigin per OriginForTarget attribute; one DirectOrigin per key attribute of a body with Targets. evaluations = expected origins. Non-trivial = at least two expression/placement classes present; distinct = SHA-1 of the case JSON.",
+		Assumptions: append([]string{"don't care (statement silent): traversals inside for expressions (iterator variables), arguments of unknown or parameterless functions, surplus arguments, object/map key expressions, dynamic blocks, undetermined dependent-body selection"}, commonAssumptions...),
+	},
 }
